@@ -55,6 +55,7 @@ type World struct {
 	// the one every returned update has been applied to)
 	delay bool
 	setAt map[int64]*tmtypes.ValidatorSet
+	t0    time.Time // genesis time of the chain
 	db    dbm.DB // the replica's database: Restart opens a new application instance on it
 }
 
@@ -93,7 +94,7 @@ func NewWorld(o WorldOpts) *World {
 	if o.Balance == nil {
 		o.Balance = defaultBalance()
 	}
-	w := &World{enc: simapp.MakeEncodingConfig(), height: 0, now: o.T0, db: dbm.NewMemDB()}
+	w := &World{enc: simapp.MakeEncodingConfig(), height: 0, now: o.T0, t0: o.T0, db: dbm.NewMemDB()}
 	app := simapp.NewInitApp(log.NewNopLogger(), w.db, nil, true, map[int64]bool{}, simapp.DefaultNodeHome, 5, w.enc, simtestutil.EmptyAppOptions{}, bam.SetChainID(chainID))
 	w.app = app
 	gs := simapp.NewDefaultGenesisState()
